@@ -10,12 +10,14 @@ import time
 
 P, k = sys.argv[1], sys.argv[2]
 checks = sys.argv[3:] or [P]
-src = f"/tmp/mut/{P}"
+MUT = os.environ.get("MUTDIR", "/tmp/mut")
+TAG = os.environ.get("MUTTAG", "")
+src = f"{MUT}/{P}"
 patch, demo0 = f"{src}/patch{k}.diff", f"{src}/demo{k}.py"
 wt = f"/tmp/wt/eval_{P}_{k}"
 # some demonstrations assert that canopen is imported from their author's worktree: retarget
-demo = f"/tmp/mut/{P}/demo{k}_eval.py"
-open(demo, "w").write(open(demo0).read().replace(f"/tmp/wt/{P}/", wt + "/").replace(f"/tmp/wt/{P}", wt))
+demo = f"{MUT}/{P}/demo{k}_eval.py"
+open(demo, "w").write(open(demo0).read().replace(f"/tmp/wt/{P}/", wt + "/").replace(f"/tmp/wt/{P}", wt).replace(f"/tmp/wt2/{P}", wt))
 sh = lambda c, **kw: subprocess.run(c, shell=True, text=True, stdout=subprocess.PIPE, stderr=subprocess.STDOUT, **kw)  # noqa
 sh(f"git -C /repo worktree remove --force {wt}")
 assert sh(f"git -C /repo worktree add -q {wt} HEAD").returncode == 0
@@ -56,7 +58,7 @@ if ok:
     finally:
         sh("git -C /repo checkout -- .")
         assert sh("git -C /repo status --porcelain -- canopen").stdout.strip() == ""
-    d = f"/verif/seeded/{P}-{k}"
+    d = f"/verif/seeded/{P}-{TAG}{k}"
     os.makedirs(d, exist_ok=True)
     shutil.copy(patch, f"{d}/patch.diff")
     shutil.copy(demo0, f"{d}/demo.py")
